@@ -269,3 +269,45 @@ package x509
 // RFC 6962 section 3.3: opaque SerializedSCT<1..2^16-1>; SerializedSCT sct_list <1..2^16-1>.
 //@ layout SerializedSCT C04: Val opaque<1..65535>
 //@ layout SignedCertificateTimestampList C04: SCTList vector<1..65535> of SerializedSCT
+
+// Path building (C02): the step that decides whether a certificate found by name in the root or
+// intermediate pool is taken as issuer of c. A candidate is given up without a signature check only
+// when it is already in the chain or the budget of signature checks is used up; it extends the chain
+// only when it signed c and is valid as a CA in this position.
+//@ func (*Certificate).buildChains$1
+//@ props C02
+//@ may panic
+//@ modifies nothing
+//@ frame-trusted writes the captured results (chains, err, hint, cache, the shared signature-check counter) of the enclosing buildChains
+//@ site Equal#1 as eq
+//@ site CheckSignatureFrom#1 as cs
+//@ site isValid#1 as iv
+//@ site appendToFreshChain#1 as fr
+//@ site appendToFreshChain#2 as fi
+//@ site buildChains#1 as rec
+//@ requires c != nil
+//@ requires opts != nil
+//@ requires opts.Roots != nil
+//@ requires candidate != nil
+//@ ensures [a-candidate-is-given-up-unchecked-only-when-already-in-the-chain-or-out-of-budget] !cs.called ==> (eq.called && eq.res) || (sigChecks != nil && *sigChecks > maxChainSignatureChecks)
+//@ ensures [a-candidate-that-signed-the-certificate-is-checked-for-validity] cs.called && cs.res == nil ==> iv.called
+//@ at cs assert [the-candidate-must-have-signed-this-certificate] cs.parent == candidate && cs.c == c
+//@ at iv assert [only-a-signer-is-checked-as-issuer-in-this-chain-position] cs.res == nil && iv.c == candidate && iv.certType == certType && iv.currentChain == currentChain && iv.opts == opts
+//@ at fr assert [a-valid-root-that-signed-completes-the-chain] iv.res == nil && certType == rootCertificate && fr.chain == currentChain && fr.cert == candidate
+//@ at fi assert [a-valid-intermediate-that-signed-extends-the-chain] iv.res == nil && certType == intermediateCertificate && fi.chain == currentChain && fi.cert == candidate
+//@ at rec assert [path-building-continues-from-the-intermediate] rec.c == candidate && rec.currentChain == fi.res && rec.sigChecks == sigChecks && rec.opts == opts
+
+//@ func (*Certificate).buildChains
+//@ props C02
+//@ may panic
+//@ modifies nothing
+//@ frame-trusted writes its own results, the cache it was handed or made, and the shared signature-check counter
+//@ site findPotentialParents#1 as pr
+//@ site findPotentialParents#2 as pi
+//@ site buildChains$1#1 as cr
+//@ site buildChains$1#2 as ci
+//@ requires c != nil && opts != nil && opts.Roots != nil
+//@ ensures [both-pools-are-searched-for-issuers-of-this-certificate] pr.called && pr.cert == c && (opts.Intermediates != nil ==> pi.called && pi.cert == c)
+//@ ensures [chains-or-an-error] len(chains) == 0 ==> err != nil
+//@ at cr assert [every-root-found-by-name-is-considered-as-a-root] cr.certType == rootCertificate && cr.candidate == opts.Roots.certs[rootNum]
+//@ at ci assert [every-intermediate-found-by-name-is-considered-as-an-intermediate] ci.certType == intermediateCertificate && ci.candidate == opts.Intermediates.certs[intermediateNum]
